@@ -212,6 +212,111 @@ def op_of_label(label):
     return [ACTION_TO_OP[name]] + args
 
 
+def directed_histories(rng, n, vals, length=10, maxlen=7):
+    """op sequences chosen with one weight per OPERATION (TLC's simulation picks uniformly among successor states, where the
+    parameter-rich operations crowd out the others); lengths are tracked so that the operations are ones a plain list accepts.
+    Half of the histories contain a sandwich  sort ; <one in-place mutator> ; sort  (anything remembered by the first sort
+    must be forgotten by every mutator)."""
+    fams = ["append", "add_state", "insert", "pop", "remove", "clear", "sort", "sort", "sortkey", "extend", "iadd", "extend_iter",
+            "iadd_iter", "setitem", "delitem", "setslice", "delslice", "copy", "add", "mul", "getslice", "everyother", "reversed",
+            "filter", "filter_states", "apply_function", "convert_states", "to_boolean", "to_spin", "construct"]
+    mutators = ["append", "add_state", "insert", "pop", "remove", "extend", "iadd", "extend_iter", "iadd_iter", "setitem", "delitem",
+                "setslice", "delslice"]
+    out = []
+    for _ in range(n):
+        ln = {1: 0, 2: 0}
+        ops = []
+
+        def make(f, k):
+            """one operation of family f on collection k, or None if a plain list would refuse it now"""
+            o = rng.choice([1, 2])
+            d = 3 - k
+            v = rng.choice(vals)
+            if f in ("append", "add_state") and ln[k] < maxlen:
+                ln[k] += 1
+                return [f, k, v]
+            if f == "insert" and ln[k] < maxlen:
+                ln[k] += 1
+                return [f, k, rng.randint(-1, ln[k] - 1), v]
+            if f in ("pop", "delitem") and ln[k] > 0:
+                ln[k] -= 1
+                return [f, k, rng.randint(-1, ln[k])]
+            if f == "remove" and ln[k] > 0:
+                ln[k] -= 1
+                return [f, k, rng.randint(0, ln[k])]
+            if f == "clear":
+                ln[k] = 0
+                return [f, k]
+            if f == "sort":
+                return [f, k]
+            if f == "sortkey":
+                return [f, k, rng.choice(["id", "negv", "v"]), rng.random() < 0.5]
+            if f in ("extend", "iadd") and ln[k] + ln[o] <= maxlen:
+                r = [f, k, o, rng.random() < 0.4]
+                ln[k] += ln[o]
+                return r
+            if f in ("extend_iter", "iadd_iter") and ln[k] + ln[o] <= maxlen:
+                ln[k] += ln[o]
+                return [f, k, o, True]
+            if f == "setitem" and ln[k] > 0:
+                return [f, k, rng.randint(-1, ln[k] - 1), v]
+            if f == "setslice":
+                lo, hi = rng.randint(0, maxlen), rng.randint(0, maxlen)
+                l_ = min(lo, ln[k])
+                h_ = max(l_, min(hi, ln[k]))
+                new = l_ + ln[o] + (ln[k] - h_)
+                if new <= maxlen:
+                    ln[k] = new
+                    return [f, k, lo, hi, o]
+                return None
+            if f == "delslice" and ln[k] > 0:
+                lo = rng.randint(0, ln[k] - 1)
+                hi = rng.randint(lo + 1, maxlen)
+                ln[k] -= (min(hi, ln[k]) - lo)
+                return [f, k, lo, hi]
+            if f in ("copy", "everyother", "reversed", "apply_function", "convert_states", "to_boolean", "to_spin"):
+                ln[d] = (ln[k] + 1) // 2 if f == "everyother" else ln[k]
+                return [f, k, d]
+            if f == "add" and ln[k] + ln[o] <= maxlen:
+                ln[d] = ln[k] + ln[o]
+                return [f, k, o, rng.random() < 0.4, d]
+            if f == "mul":
+                m = rng.randint(0, 2)
+                if ln[k] * m <= maxlen:
+                    ln[d] = ln[k] * m
+                    return [f, k, m, d]
+                return None
+            if f == "getslice":
+                lo, hi = rng.randint(0, maxlen), rng.randint(0, maxlen)
+                ln[d] = max(0, min(hi, ln[k]) - min(lo, ln[k]))
+                return [f, k, lo, hi, d]
+            if f == "construct":
+                ln[k] = 2
+                return [f, k, v, rng.choice(vals)]
+            return None
+        sandwich_at = rng.randint(2, 5) if rng.random() < 0.5 else -1
+        for step in range(length):
+            if step == sandwich_at:
+                k = rng.choice([1, 2])
+                ops.append(["sort", k])
+                m = make(rng.choice(mutators), k)
+                if m:
+                    ops.append(m)
+                ops.append(["sort", k])
+                continue
+            f = rng.choice(fams)
+            k = rng.choice([1, 2])
+            if f in ("filter", "filter_states"):
+                # the result's length depends on the contents: the history ends here
+                ops.append([f, k, rng.choice(vals) if f == "filter" else rng.choice([0, 1]), 3 - k])
+                break
+            m = make(f, k)
+            if m:
+                ops.append(m)
+        out.append(ops)
+    return out
+
+
 def replay_ops(ops_list, vals, shift=0):
     """ops_list: list of op sequences -> trace records"""
     traces = []
@@ -368,6 +473,11 @@ def run(tier, out, replay=None):
         if traces:
             out.sample({"simulated_ops": ops_list[0][:10]})
             validate(out, wd, traces, "{0, 1, 3}", "sim")
+        # 4. directed histories: one weight per operation (sort after += after sort, ...), validated like the generated ones
+        ops_list = directed_histories(rng, 12000 if thorough else 1500, [0, 1, 3])
+        out.set("directed_histories", len(ops_list))
+        traces = replay_ops(ops_list, [0, 1, 3], shift=1)
+        validate(out, wd, traces, "{0, 1, 3}", "directed")
         out.assumptions += [
             "every AnnealResult created by the harness carries a distinct state, so `best is an element` means the same under == and identity",
             "k * res (reflected multiplication, returns a plain list) and reverse() are not judged: not in the property's list",
